@@ -498,7 +498,8 @@ impl Document {
                 }
             }
 
-            if end > start {
+            // A lone `<letter><period>` is a word that ends a sentence (`plan B.`), not an initialism.
+            if end > start + 2 {
                 // Fold every pair into the first token, up to and including the last period.
                 self.tokens[start].span.end = self.tokens[end - 1].span.end;
                 to_remove.extend(start + 1..end);
